@@ -14,7 +14,12 @@ def main():
     from harness import fakes, rig as R
     # the application's own set-up
     app_log = os.path.join(tempfile.mkdtemp(prefix='amb_start_'), 'app.log')
-    logging.basicConfig(level=logging.WARNING, filename=app_log, format='APP %(levelname)s %(message)s')
+    late = len(sys.argv) > 1 and sys.argv[1] == 'late'       # the application configures its logging AFTER deep.start()
+
+    def configure_logging():
+        logging.basicConfig(level=logging.WARNING, filename=app_log, format='APP %(levelname)s %(message)s')
+    if not late:
+        configure_logging()
     app_logger = logging.getLogger('shop.orders')
     import deep
     from deep.grpc import GRPCService
@@ -54,11 +59,13 @@ def main():
         d = holder['d']
         d.task_handler.flush()
         d.task_handler._open = True
+        if late:
+            configure_logging()       # (a no-op if anybody has put a handler on the root logger in the meantime)
         step('hit', lambda: mod.work(5))
         app_logger.debug('debug line of the application')        # below the application's level: must not appear
         app_logger.warning('warning line of the application')    # must reach the application's log file
         step('shutdown', d.shutdown)
-        out['app_log'] = open(app_log).read()
+        out['app_log'] = open(app_log).read() if os.path.exists(app_log) else None
     th = threading.Thread(target=body)
     th.start()
     th.join(60)
